@@ -529,6 +529,17 @@ class ndarray:
     def __iadd__(a, b):
         return a._inplace(b, lambda x, y: x + y)
 
+    def __iand__(a, b):
+        assert a.dtype == bool_
+        return a._inplace(b, land)
+
+    def __ior__(a, b):
+        assert a.dtype == bool_
+        return a._inplace(b, lor)
+
+    def __xor__(a, b):
+        return a._bin(b, lambda x, y: lor(land(x, lnot(y)), land(lnot(x), y)), bool_)
+
     def __isub__(a, b):
         return a._inplace(b, lambda x, y: x - y)
 
@@ -1069,6 +1080,36 @@ def where(c, a=None, b=None):
         bi = b.items if isinstance(b, ndarray) else [b] * n
         return ndarray.of([ite(k, x, y) for k, x, y in zip(c.items, ai, bi)], None, c.shape)
     return ite(c, a, b)
+
+
+def select(condlist, choicelist, default=0):
+    """first matching condition wins (numpy.select)"""
+    if len(condlist) != len(choicelist):
+        raise ValueError("list of cases must be same length as list of conditions")
+    conds = [_conc(c) if isinstance(c, ndarray) else c for c in condlist]
+    shp = None
+    for c in list(conds) + list(choicelist):
+        if isinstance(c, ndarray) and c.ndim >= 1:
+            shp = c.shape
+            break
+    n = 1
+    for d in shp or ():
+        n *= d
+
+    def elems(v):
+        if isinstance(v, ndarray) and v.ndim >= 1:
+            return list(_conc(v).items)
+        if isinstance(v, ndarray):
+            return [v.items[0]] * n
+        return [v] * n
+
+    out = elems(default)
+    for c, ch in reversed(list(zip(conds, choicelist))):
+        ci, xi = elems(c), elems(ch)
+        out = [ite(k, x, y) for k, x, y in zip(ci, xi, out)]
+    if shp is None:
+        return out[0]
+    return ndarray.of(out, None, shp)
 
 
 def isclose(a, b, rtol=1e-5, atol=1e-8, equal_nan=False):
